@@ -5,8 +5,8 @@
      watch_file() call, while the callbacks live in self._queue_callbacks keyed by fileno();
    - remove_watch_file(handle) unregisters the object (False when it is not registered) and pops the
      callback of its fileno in any case;
-   - _loop looks the callback up when it calls it (self._queue_callbacks[queue]()): KeyError when a
-     callback of the same ready batch removed it;
+   - _loop looks the callback up when it calls it (self._queue_callbacks.get(queue)) and skips a
+     descriptor whose callback was removed by a callback of the same ready batch;
    - an alarm is popped only when its due time has been reached on the clock;
    - poll() is also called when nothing is registered (time.sleep(timeout) when timeout > 0);
    - _did_something starts True.
@@ -25,9 +25,6 @@ Record zstate := mkZ {
 
 Definition zinit : zstate := mkZ (set_did true init) [] 0 [].
 Definition with_zs (s : state) (z : zstate) : zstate := mkZ s (psock z) (nobj z) (latest z).
-
-Inductive zsig := ZCont | ZExit | ZOther | ZKey.
-Definition zsig_of (s : signal) : zsig := match s with SCont => ZCont | SExit => ZExit | SOther => ZOther end.
 
 (* ZMQEventLoop.watch_file(fileobj, callback) *)
 Definition zop_watch (fd id : Z) (z : zstate) : zstate :=
@@ -81,17 +78,20 @@ Fixpoint zidle_round (beh : behaviour) (snap : list (Z * Z)) (z : zstate) : zsta
     else zidle_round beh r z
   end.
 
-(* for queue in ready: self._queue_callbacks[queue](); self._did_something = True *)
-Fixpoint zprocess_ready (beh : behaviour) (ready : list Z) (z : zstate) : zstate * zsig :=
+(* for queue in ready:
+       callback = self._queue_callbacks.get(queue)
+       if callback is None: continue      # removed by a callback called earlier in this batch
+       callback(); self._did_something = True *)
+Fixpoint zprocess_ready (beh : behaviour) (ready : list Z) (z : zstate) : zstate * signal :=
   match ready with
-  | [] => (z, ZCont)
+  | [] => (z, SCont)
   | fd :: r =>
     match lookup fd (watch (zs z)) with
-    | None => (z, ZKey)
+    | None => zprocess_ready beh r z
     | Some id =>
       match zrun_cb beh (EWatchCall fd id (now (zs z))) id z with
       | (z', SCont) => zprocess_ready beh r (with_zs (set_did true (zs z')) z')
-      | (z', sg) => (z', zsig_of sg)
+      | x => x
       end
     end
   end.
@@ -140,7 +140,7 @@ Definition zplan (z : zstate) : option (option Z * tm_t) :=
   end.
 
 (* the part of _loop after the poll *)
-Definition zafter_select (beh : behaviour) (tm : tm_t) (ready : list Z) (z : zstate) : zstate * zsig :=
+Definition zafter_select (beh : behaviour) (tm : tm_t) (ready : list Z) (z : zstate) : zstate * signal :=
   let '(z1, sig) :=
     match ready with
     | [] =>
@@ -167,7 +167,7 @@ Definition zafter_select (beh : behaviour) (tm : tm_t) (ready : list Z) (z : zst
     end in
   match sig with
   | SCont => zprocess_ready beh ready z1
-  | _ => (z1, zsig_of sig)
+  | _ => (z1, sig)
   end.
 
 Fixpoint zrun_loop (beh : behaviour) (env : list step) (z : zstate) : zstate * outcome :=
@@ -181,10 +181,9 @@ Fixpoint zrun_loop (beh : behaviour) (env : list step) (z : zstate) : zstate * o
       | (z1, None) => (z1, OBlocked)
       | (z1, Some ready) =>
         match zafter_select beh tm ready z1 with
-        | (z2, ZCont) => zrun_loop beh env' z2
-        | (z2, ZExit) => (z2, OReturned)
-        | (z2, ZOther) => (z2, ORaised)
-        | (z2, ZKey) => (z2, OKeyError)
+        | (z2, SCont) => zrun_loop beh env' z2
+        | (z2, SExit) => (z2, OReturned)
+        | (z2, SOther) => (z2, ORaised)
         end
       end
     end
